@@ -28,7 +28,7 @@ BOUNDS = {
     "thorough": {"strings": "<=6 symbols (50 M) x 3 contexts", "corruptions": "additionally all double edits of the 8 shortest corpus programs", "resolution": "as quick"},
 }
 RULE = (
-    "every enumerated text is run through aw_query.query2.query under a 5 s alarm; the outcome must be a value or a QueryException subclass (other exceptions only if raised inside a transform / q2_* function body = deep data-shape errors, counted separately); "
+    "every enumerated text is run through aw_query.query2.query under a 5 s CPU-time alarm (ITIMER_PROF: immune to a loaded machine); the outcome must be a value or a QueryException subclass (other exceptions only if raised inside a transform / q2_* function body = deep data-shape errors, counted separately); "
     "non-trivial = texts that the reference parser rejects (malformed) or that fail name/arity/type resolution"
 )
 ASSUMPTIONS = [
@@ -102,7 +102,7 @@ def stuck_texts(scratch, older_than):
 def run_text(text, ds):
     """-> (kind, detail) kind in value | Parse | Interpret | Function | Query | deep | other | timeout"""
     _progress(text)
-    signal.setitimer(signal.ITIMER_REAL, 5.0)
+    signal.setitimer(signal.ITIMER_PROF, 5.0)
     try:
         query2.query("q", text, START, END, ds)
         return ("value", "")
@@ -132,7 +132,7 @@ def run_text(text, ds):
                 return ("deep", f"{type(e).__name__}@{where}")
         return ("other", f"{type(e).__name__}@{where}")
     finally:
-        signal.setitimer(signal.ITIMER_REAL, 0)
+        signal.setitimer(signal.ITIMER_PROF, 0)
 
 
 def record(u, text, kind, det, part):
@@ -344,7 +344,7 @@ def _unit_resolution(names):
 
 
 def _dispatch(x):
-    signal.signal(signal.SIGALRM, _alarm)
+    signal.signal(signal.SIGPROF, _alarm)
     return {"s": _guard(_unit_strings), "e": _guard(_unit_edits), "r": _unit_resolution}[x[0]](x[1])
 
 
@@ -428,13 +428,14 @@ def run(ctx):
         pool.terminate()
     agg.extra["corpus_programs"] = len(texts)
     agg.extra["deep_data_shape_errors_not_flagged"] = {k[5:]: v for k, v in agg.hist.items() if k.startswith("deep_")}
-    ctx.selfcheck(agg.hist.get("outcome_value", 0) > 0 and agg.hist.get("outcome_Parse", 0) > 0 and agg.hist.get("outcome_Interpret", 0) > 0 and agg.hist.get("outcome_Function", 0) > 0, "vacuous: not all outcome classes were seen")
+    if agg.exhaustive:  # a run cut short by non-terminating queries has a violation to report, not a vacuity problem
+        ctx.selfcheck(agg.hist.get("outcome_value", 0) > 0 and agg.hist.get("outcome_Parse", 0) > 0 and agg.hist.get("outcome_Interpret", 0) > 0 and agg.hist.get("outcome_Function", 0) > 0, "vacuous: not all outcome classes were seen")
     return agg
 
 
 def run_case(ctx, case):
     _cfg(ctx)
-    signal.signal(signal.SIGALRM, _alarm)
+    signal.signal(signal.SIGPROF, _alarm)
     if case.get("part") == "hang":
         import multiprocessing as mp
 
